@@ -300,7 +300,7 @@ class SchemaGen:
         for _ in range(rng.randrange(1, 2 + scale)):
             ename = names.type_name("E")
             spec.enums[ename] = [names.enum_value() for _ in range(rng.randrange(1, 5))]
-        for _ in range(rng.randrange(0, 3)):
+        for _ in range(rng.randrange(1 if "schema.force_scalar" in self.dirty else 0, 3)):
             spec.scalars.append(names.type_name("Sc"))
         # input objects: a field may reference earlier inputs with any wrapper, itself/later ones only nullably or in lists
         in_names = [names.type_name("In") for _ in range(rng.randrange(1, 2 + scale))]
